@@ -15,6 +15,8 @@ import Golib.Lists.Wire
 import Golib.Lists.Sort
 import Golib.Lists.LinkedProof
 import Golib.Lists.Multi
+import Golib.Lists.Cross
+import Golib.Lists.TableWire
 
 namespace C13
 open Lists
@@ -254,6 +256,40 @@ theorem sortingAnyList_orders {α β : Type} (sort : SortFn) (hs : SortContract 
   ⟨hs.perm _ _, (sorted_means_ordered_2 le asc vals cle child childAsc _).mp
     (hs.sorted _ _ (lessIdx2_tp h hc asc childAsc vals child))⟩
 
+/-- **go_sort_small_inputs.**  `sort.Sort` on at most 12 elements is `insertionSort`
+    (go1.23 `pdqsort`: `if length <= 12 { insertionSort(data, a, b); return }`), and that loop,
+    transcribed, orders its input for EVERY total preorder handed to it as `Less` — reflexive ones
+    like the closures of this package included.  Nothing is assumed about `sort.Sort` here. -/
+theorem go_sort_small_inputs {α : Type} {less : α → α → Bool} (h : TotalPreorder less) (xs : List α) :
+    (goInsertionSort less xs).Perm xs ∧ (goInsertionSort less xs).Pairwise (fun a b => less a b = true) :=
+  ⟨goInsertionSort_perm less xs, goInsertionSort_sorted h xs⟩
+
+/-- **go_sort_contract.**  The contract of `sort.Sort` used by the theorems above follows from the
+    model of its insertion sort plus the residual assumption `BigContract` about inputs longer than
+    12 elements (partitioning and heap sort: permutation; sorted for total-preorder `Less`). -/
+theorem go_sort_contract (big : SortFn) (hb : BigContract big) : SortContract (goSort big) :=
+  goSort_contract big hb
+
+/-- the residual assumption is satisfiable -/
+theorem big_contract_satisfiable : BigContract (fun less xs => xs.mergeSort less) :=
+  ⟨fun less xs _ => List.mergeSort_perm xs less,
+   fun less xs _ h => List.pairwise_mergeSort h.trans
+     (fun a b => by rcases h.total a b with h | h <;> simp [h]) xs⟩
+
+/-- Sorting on lists of at most 12 elements: ordering permutation with no assumption at all -/
+theorem sorting_orders_small {α : Type} (big : SortFn) {le : α → α → Bool} (h : TotalPreorder le)
+    (asc : Bool) (vals : Nat → α) (n : Nat) (hn : n ≤ 12) :
+    (sorting (goSort big) le asc vals n).Perm (List.range n) ∧
+    ((sorting (goSort big) le asc vals n).map vals).Pairwise (fun a b => dir le asc a b = true) := by
+  have hl : (List.range n).length ≤ 12 := by simpa using hn
+  have e : sorting (goSort big) le asc vals n = goInsertionSort (lessIdx1 le asc vals) (List.range n) := by
+    unfold sorting goSort; rw [if_pos hl]
+  rw [e]
+  refine ⟨goInsertionSort_perm _ _, ?_⟩
+  exact sorted_means_ordered_1 le asc vals _ (goInsertionSort_sorted (lessIdx1_tp h asc vals) _)
+
+example : goInsertionSort (fun a b : Nat => decide (a ≤ b)) [3, 1, 2, 1] = [1, 1, 2, 3] := by decide
+
 /-- the contract is not vacuous: merge sort keeps it -/
 theorem sort_contract_satisfiable : SortContract (fun less xs => xs.mergeSort less) :=
   mergeSort_contract
@@ -278,6 +314,130 @@ theorem filtering {α : Type} (g : Growth) (hg : g.OK) (z : α) (l : TL α) (hi 
     rw [hf] at this
     obtain ⟨out, h1, h2, _⟩ := this
     exact ⟨out, h1, h2⟩
+
+/-! ### cross-type methods: integers and their decimal text -/
+
+/-- **atoi_itoa.**  `strconv.Atoi(strconv.Itoa(v)) = v` for every int64 (the digit functions that
+    model strconv) -/
+theorem atoi_itoa (v : Int) (h : -9223372036854775808 ≤ v ∧ v ≤ 9223372036854775807) :
+    Cross.atoi (Cross.itoa v) = some v := Cross.atoi_itoa v h
+
+/-- **int_list_text_view.**  AddInt/AddLong, AddString, SetInt, SetString, GetInt, GetString on an
+    IntList / LongList answer as the plain sequence of integers with `Atoi` on the way in (a text
+    that does not parse panics and changes nothing) and `Itoa` on the way out -/
+theorem int_list_text_view (g : Growth) (hg : g.OK) (op : Cross.IOp) (l : TL Int) (hi : TL.Inv l)
+    (hb : (TL.abs l).length + 1 ≤ TL.BOUND) :
+    (Cross.stepI g op l).1 = (Cross.specI op (TL.abs l)).1 ∧
+    TL.abs (Cross.stepI g op l).2 = (Cross.specI op (TL.abs l)).2 ∧ TL.Inv (Cross.stepI g op l).2 :=
+  Cross.stepI_refines g hg op l hi hb
+
+/-- **string_list_int_view.**  AddInt/AddLong/SetInt (Itoa) and GetInt/GetLong (Atoi; panic when the
+    element is not a number) on a StringList answer as the plain sequence of strings -/
+theorem string_list_int_view (g : Growth) (hg : g.OK) (op : Cross.SOp) (l : TL Bytes) (hi : TL.Inv l)
+    (hb : (TL.abs l).length + 1 ≤ TL.BOUND) :
+    (Cross.stepS g op l).1 = (Cross.specS op (TL.abs l)).1 ∧
+    TL.abs (Cross.stepS g op l).2 = (Cross.specS op (TL.abs l)).2 ∧ TL.Inv (Cross.stepS g op l).2 :=
+  Cross.stepS_refines g hg op l hi hb
+
+/-- an integer stored through the text view comes back as itself, in both directions -/
+theorem cross_roundtrips (v : Int) (h : -9223372036854775808 ≤ v ∧ v ≤ 9223372036854775807) :
+    (∀ s : List Bytes, (Cross.specS (.getInt s.length) (Cross.specS (.addInt v) s).2).1 = .int v) ∧
+    (∀ s : List Int, Cross.specI (.addString (Cross.itoa v)) s = Cross.specI (.addInt v) s) :=
+  ⟨fun s => Cross.stringList_int_roundtrip s v h, fun s => Cross.intList_text_roundtrip s v h⟩
+
+example : Cross.atoi [43, 55] = some 7 ∧ Cross.atoi [45] = none ∧ Cross.atoi [49, 95, 48] = none ∧
+    Cross.atoi [] = none := by decide
+
+example : Cross.decDigits 120 = [49, 50, 48] := by
+  rw [Cross.decDigits, Cross.decDigits, Cross.decDigits]; simp
+
+/-! ### StatGeneralPack's table of lists -/
+
+open Lists.Table in
+/-- **table_filter_rows_aligned.**  The loop "every column ↦ Filtering(idx)" refines the column-wise
+    selection; when every index is in range for every column, EVERY column is selected by the SAME
+    indices — row r of the result is row idx[r] of the source, in all columns — and one out-of-range
+    index for one column makes the whole call panic. -/
+theorem table_filter_rows_aligned (g : Growth) (hg : g.OK) (t : T) (hi : InvT t) (idx : List Int)
+    (hb : idx.length ≤ TL.BOUND) :
+    (match specFilter (absT t) idx with
+     | some a' => ∃ t', filterCols g t idx = some t' ∧ absT t' = a' ∧ InvT t'
+     | none => filterCols g t idx = none) ∧
+    ((∀ e ∈ absT t, ∀ i ∈ idx, 0 ≤ i ∧ i < (e.2.2.length : Int)) →
+      specFilter (absT t) idx = some ((absT t).map (fun e => (e.1, e.2.1, pick e.2.2 idx)))) ∧
+    ((∃ e ∈ absT t, ∃ i ∈ idx, ¬ (0 ≤ i ∧ i < (e.2.2.length : Int))) → specFilter (absT t) idx = none) :=
+  ⟨filterCols_spec g hg t hi idx hb, specFilter_valid _ _, specFilter_invalid _ _⟩
+
+open Lists.Table in
+/-- row r of a selected column is row idx[r] of the source column -/
+theorem table_pick_row (xs : List V) (idx : List Int)
+    (h : ∀ i ∈ idx, 0 ≤ i ∧ i < (xs.length : Int)) (r : Nat) :
+    (pick xs idx)[r]? = (idx[r]?).bind (fun i => xs[i.toNat]?) := pick_getElem xs idx h r
+
+open Lists.Table in
+/-- **table_sort_permutes_rows.**  `Sort(data, key, asc)`: with the key present and all columns as
+    long as the sort column, every column of the result is the source column selected by ONE
+    permutation of the row numbers, and along it the sort column is in the requested order. -/
+theorem table_sort_permutes_rows (sort : SortFn) (hs : SortContract sort) (g : Growth) (hg : g.OK)
+    (t : T) (hi : InvT t) (key : Bytes) (asc : Bool) (c : Col) (hk : get t key = some c)
+    (hlen : ∀ e ∈ t, e.2.l.size = c.l.size) (hb : c.l.size ≤ TL.BOUND) :
+    ∃ (ord : List Nat) (t' : T), sortTable sort g t key asc = some t' ∧
+      ord.Perm (List.range c.l.size) ∧
+      absT t' = (absT t).map (fun e => (e.1, e.2.1, pick e.2.2 (ord.map Int.ofNat))) ∧
+      (ord.map (cell c)).Pairwise (fun a b => dir (vLe (widthOfTy c.ty)) asc a b = true) :=
+  sortTable_spec sort hs g hg t hi key asc c hk hlen hb
+
+open Lists.Table in
+/-- **table_sortAny_permutes_rows.**  `SortAnyList(data, key, asc, key2, asc2)`: the same, with ties
+    of the first column ordered by the second -/
+theorem table_sortAny_permutes_rows (sort : SortFn) (hs : SortContract sort) (g : Growth) (hg : g.OK)
+    (t : T) (hi : InvT t) (key : Bytes) (asc : Bool) (key2 : Bytes) (asc2 : Bool) (c c2 : Col)
+    (hk : get t key = some c) (hk2 : get t key2 = some c2)
+    (hlen : ∀ e ∈ t, e.2.l.size = c.l.size) (hb : c.l.size ≤ TL.BOUND) :
+    ∃ (ord : List Nat) (t' : T), sortAnyTable sort g t key asc key2 asc2 = some t' ∧
+      ord.Perm (List.range c.l.size) ∧
+      absT t' = (absT t).map (fun e => (e.1, e.2.1, pick e.2.2 (ord.map Int.ofNat))) ∧
+      ord.Pairwise (Ordered2 (vLe (widthOfTy c.ty)) asc (cell c) (vLe (widthOfTy c2.ty)) (cell c2) asc2) :=
+  sortAnyTable_spec sort hs g hg t hi key asc key2 asc2 c c2 hk hk2 hlen hb
+
+open Lists.Table in
+/-- Put / Get / create: a put key is found, other keys are untouched, a new key goes last and an
+    existing one keeps its place; `create` gives an empty list of the coded type (unknown → string);
+    the element orders on tagged values are total preorders -/
+theorem table_put_get_create (t : T) (k k2 : Bytes) (c : Col) (code w : Nat) :
+    get (put t k c) k = some c ∧
+    ((k == k2) = false → get (put t k c) k2 = get t k2) ∧
+    (put t k c).map (·.1) = (if (t.map (·.1)).contains k then t.map (·.1) else t.map (·.1) ++ [k]) ∧
+    ((create code).ty = (if code = 1 ∨ code = 2 ∨ code = 3 ∨ code = 4 then code else 5) ∧
+      TL.abs (create code).l = [] ∧ TL.Inv (create code).l) ∧
+    TotalPreorder (vLe w) :=
+  ⟨get_put_same t k c, get_put_other t k k2 c, keys_put t k c, create_type code, vLe_tp w⟩
+
+open Lists.Table in
+/-- **table_wire.**  `readTable(writeTable(t))` into an empty table: same keys in the same order,
+    same list types (through `create`), equal lists, following bytes untouched — for at most 32767
+    columns with pairwise distinct keys, each list below 2^23 elements of its own type. -/
+theorem table_wire (g : Growth) (hg : g.OK) (t : T) (r : Bytes)
+    (hn : t.length ≤ 32767) (hw : ∀ e ∈ t, WFEntry e)
+    (hd : t.Pairwise (fun a b => (a.1 == b.1) = false)) :
+    ∃ t', P.run (readTable g []) (writeTable t ++ r) = some (t', r) ∧ absT t' = absT t ∧ InvT t' :=
+  run_readTable_writeTable g hg t r hn hw hd
+
+open Lists.Table in
+/-- … and a strict prefix of a written table never reads back -/
+theorem table_wire_prefix_fails (g : Growth) (hg : g.OK) (t : T) (q s : Bytes)
+    (hn : t.length ≤ 32767) (hw : ∀ e ∈ t, WFEntry e)
+    (hd : t.Pairwise (fun a b => (a.1 == b.1) = false)) (hs : s ≠ []) (hq : q ++ s = writeTable t) :
+    P.run (readTable g []) q = none := by
+  obtain ⟨t', h, _, _⟩ := run_readTable_writeTable g hg t [] hn hw hd
+  rw [List.append_nil, ← hq] at h
+  exact P.prefix_fails (readTable g []) q s t' hs h
+
+open Lists.Table in
+example : (sortTable (goSort (fun less xs => xs.mergeSort less)) Growth.go
+    [([1], ⟨1, ⟨3, false, #[.i 3, .i 1, .i 2]⟩⟩), ([2], ⟨5, ⟨3, false, #[.s [99], .s [97], .s [98]]⟩⟩)]
+    [1] true).map absT = some [([1], 1, [.i 1, .i 2, .i 3]), ([2], 5, [.s [97], .s [98], .s [99]])] := by
+  decide
 
 /-! ### LinkedList -/
 
